@@ -170,6 +170,18 @@ CHECKS = {
         'quick': {'shards': 16, 'timeout': 900},
         'thorough': {'shards': 16, 'timeout': 5400},
     },
+    'C08': {
+        'pkg': 'internal/server', 'test': 'TestVerif_C08', 'level': 'exploration',
+        'technique': 'runtime monitor: model (set of accepted identity blocks) checked online against the real State with its replay-cache cleaner running on a virtual clock over multi-day histories; stress of simultaneous presentations; differential test of altered copies that still authenticate',
+        'level_text': 'Histories: genuine packets (real client, clock offsets at both ends of the window) are presented to a real State inside a synctest bubble across 12 h clean-up ticks - first sightings at tick-{1,10,179,180,181,359,361} s, re-presentations at tick+{0,1,179,359} s, and random 50..200-event histories over three virtual days; '
+                      'any second acceptance of a packet is a violation, and a first timely presentation must be accepted. Schedules: 2..64 goroutines present one packet at once (thousands of rounds, yields injected at the clock read): exactly one acceptance. '
+                      'Variants: bit flips, random multi-bit changes and HTTP spelling variants that a fresh state still authenticates must be refused by a state that has seen the original.',
+        'level_note': 'Assumes ' + A_RACE + ' and ' + A_HARNESS + '. Schedules of the simultaneous presentations are sampled by stress. Only malleability reachable by editing bytes without keys is tested.',
+        'rule': 'case = one history (boundary or random), one concurrency level, or one base packet x shard of variants; counters give presentations; distinct = case index; non-trivial = at least one packet was accepted once and presented again',
+        'assumptions': [A_RACE, A_HARNESS],
+        'quick': {'shards': 16, 'timeout': 900},
+        'thorough': {'shards': 16, 'timeout': 5400},
+    },
 }
 
 NOT_APPLICABLE = {p: 'check not built yet in this round (the design in DESIGN.md section 3 applies; runtime monitoring can decide it)'
